@@ -253,6 +253,21 @@ Proof. vm_compute. reflexivity. Qed.
 Example C07_ex_absmax : bk_cells 8 (bk_get_abs_max 8 (bk_idxs F64 exF ex_pts) ex_data)
   = [Some (-4); None; None; Some 7; None; Some 5; None; None].
 Proof. vm_compute. reflexivity. Qed.
+Example C07_ex_avg :
+  map (bk_get_average F64 8 (bk_idxs F64 exF ex_pts) ex_data None true) [0; 1; 3]
+  = [Some (-1.5)%float; None; Some 7%float].
+Proof. vm_compute. reflexivity. Qed.
+(* categories covering all values of the cell: the fractions are 1/2 + 1/2 *)
+Example C07_ex_fractions :
+  map (fun cat => bk_get_fraction F64 8 (bk_idxs F64 exF ex_pts) ex_data cat None 0) [1; -4; 7]
+  = [Some 0.5%float; Some 0.5%float; Some 0%float]
+  /\ NoDup [1; -4; 7] /\ bk_cell_data F64 exF 0 0 ex_pts ex_data = [Some 1; Some (-4)].
+Proof.
+  split; [vm_compute; reflexivity|]. split; [|vm_compute; reflexivity].
+  repeat constructor; cbn; intuition discriminate.
+Qed.
+Example C07_ex_empty : filter (bk_in_cell F64 exF 0 1) ex_pts = [] /\ filter (bk_in_cell F64 exF 1 1) ex_pts <> [].
+Proof. split; vm_compute; [reflexivity | discriminate]. Qed.
 Example C07_ex_data_ok : bk_finite ex_data /\ bk_data_ok None ex_data.
 Proof. split; repeat constructor; try discriminate; right; discriminate. Qed.
 Example C07_ex_sorted : StronglySorted ple (bk_sort (combine (bk_idxs F64 exF ex_pts) ex_data)).
